@@ -47,8 +47,10 @@ type hist struct {
 	cfg   simcfg
 	// statistics
 	laggingDecisions int
-	framesChecked    int // C04 frameOracle: frames examined
-	lamportPairs     int // C04 frameOracle: (event, parent) timestamp pairs compared
+	framesChecked    int             // C04 frameOracle: frames examined
+	lamportPairs     int             // C04 frameOracle: (event, parent) timestamp pairs compared
+	byzTime          map[string]bool // events whose claimed time comes from the adversary (C18)
+	tsChecked        int
 	blocks           int
 	maxEvents        int
 	actions          map[string]int
@@ -338,7 +340,7 @@ func runHistory(out *bufio.Writer, seed int64, hid int, cfg simcfg) (stats map[s
 	rng := rand.New(rand.NewSource(seed))
 	w := hx.NewWorld(out)
 	h := &hist{w: w, rng: rng, cfg: cfg, actions: map[string]int{}, submitted: map[int][]int{}, sigsPrev: map[string]map[string]bool{},
-		faults: map[int]*hx.FaultStore{}, pendingJoins: map[int]bool{}, joined: map[int]bool{}, leaving: map[int]bool{}, forks: map[int]bool{}, appFailed: map[int]bool{}}
+		faults: map[int]*hx.FaultStore{}, byzTime: map[string]bool{}, pendingJoins: map[int]bool{}, joined: map[int]bool{}, leaving: map[int]bool{}, forks: map[int]bool{}, appFailed: map[int]bool{}}
 	fmt.Fprintf(out, "H %d seed=%d n=%d steps=%d\n", hid, seed, cfg.n, cfg.steps)
 	genesis := []int{}
 	for i := 0; i < cfg.n; i++ {
@@ -544,7 +546,7 @@ func runHistory(out *bufio.Writer, seed int64, hid int, cfg simcfg) (stats map[s
 			ev = n
 		}
 	}
-	st := map[string]int{"lagging": h.laggingDecisions, "blocks": h.blocks, "events": ev, "n": cfg.n, "frames": h.framesChecked, "ltpairs": h.lamportPairs}
+	st := map[string]int{"lagging": h.laggingDecisions, "blocks": h.blocks, "events": ev, "n": cfg.n, "frames": h.framesChecked, "ltpairs": h.lamportPairs, "tschecked": h.tsChecked}
 	for k, v := range h.actions {
 		st["a:"+k] = v
 	}
